@@ -190,6 +190,16 @@ func (fg *FuncGen) resolveCallee(c *ssa.CallCommon) *callee {
 		cl.ct = g.cs.ByKey["functype "+n.Obj().Pkg().Path()+" "+cl.name]
 		cl.inModule = true
 	}
+	if cl.ct == nil && cl.kind == "dynamic" {
+		// unnamed function types: contract keyed by the signature text, in the caller's package
+		key := "functype " + fg.fn.Pkg.Pkg.Path() + " " + types.TypeString(cl.sig, func(p *types.Package) string { return p.Name() })
+		if ct := g.cs.ByKey[key]; ct != nil {
+			cl.ct = ct
+			cl.kind = "functype"
+			cl.inModule = true
+			cl.name = ct.Key
+		}
+	}
 	cl.params = sigParamNames(cl.sig, false)
 	if cl.ct != nil && len(cl.ct.Params) > 0 {
 		cl.params = cl.ct.Params
@@ -1021,6 +1031,9 @@ func (fg *FuncGen) finishReturns() {
 		results = append(results, v)
 	}
 	fg.lastPos = fg.fn.Pos()
+	// vacuity: some return must be reachable under everything assumed so far
+	fg.obls = append(fg.obls, &Obligation{Name: fg.oblName("vacuity", "a return is reachable"), Kind: "vacuity", Func: funcDisplayName(fg.fn), Props: fg.props,
+		Prefix: len(fg.asserts), Goal: fg.reach, ExpectSat: true})
 	if fg.ct != nil && fg.ct.ExitsSeparate {
 		return
 	}
